@@ -304,6 +304,13 @@ func GSplit(sp *spec.Spec, m *spec.Method, tree any) (md map[string][]string, ms
 	}
 	for _, l := range locs {
 		if v, ok := o[l.Attr]; ok && v != nil {
+			if arr, isArr := v.([]any); isArr {
+				// one metadata value per element; an empty array has no spelling (it travels as absence)
+				for _, e := range arr {
+					md[strings.ToLower(l.WireName())] = append(md[strings.ToLower(l.WireName())], TextOf(e))
+				}
+				continue
+			}
 			md[strings.ToLower(l.WireName())] = []string{TextOf(v)}
 		}
 	}
